@@ -22,6 +22,10 @@ def _pairs_of(n, prog, fn):
         n = n.args[0]
     if isinstance(n, ast.Call) and prog.external(fn.module, n.func) == "itertools.combinations" and len(n.args) == 2 and astx.const_value(n.args[1]) == 2:
         return txt(n.args[0])
+    if isinstance(n, ast.Call) and (prog.external(fn.module, n.func) in ("itertools.pairwise",) or txt(n.func) in ("pairwise", "itertools.pairwise")) and len(n.args) == 1:
+        return f"CONSECUTIVE pairs of {txt(n.args[0])} only (itertools.pairwise)"
+    if isinstance(n, ast.Call) and txt(n.func) == "zip" and len(n.args) == 2 and isinstance(n.args[1], ast.Subscript) and txt(n.args[1].value) == txt(n.args[0]):
+        return f"CONSECUTIVE pairs of {txt(n.args[0])} only (zip(x, x[1:]))"
     return None
 
 
@@ -273,6 +277,25 @@ def run(ctx):
             o.undecided("acceptance loop / working copy not found", fn)
         else:
             c = txt(accept.target)
+            # `v in g[u]` / `v in g.adj[u]` / `v in g.neighbors(u)` IS g.has_edge(u, v) for a node u of g (clique members are nodes of g):
+            # written as the call on the private tree
+            class _Adj(ast.NodeTransformer):
+                def visit_Compare(self, n):
+                    self.generic_visit(n)
+                    if len(n.ops) == 1 and isinstance(n.ops[0], (ast.In, ast.NotIn)):
+                        r_ = n.comparators[0]
+                        u_ = None
+                        if isinstance(r_, ast.Subscript) and txt(r_.value) in (g, f"{g}.adj", f"{g}._adj"):
+                            u_ = r_.slice
+                        elif isinstance(r_, ast.Call) and txt(r_.func) == f"{g}.neighbors" and len(r_.args) == 1:
+                            u_ = r_.args[0]
+                        if u_ is not None:
+                            call_ = ast.Call(func=ast.Attribute(value=ast.Name(id=g, ctx=ast.Load()), attr="has_edge", ctx=ast.Load()), args=[u_, n.left], keywords=[])
+                            out_ = call_ if isinstance(n.ops[0], ast.In) else ast.UnaryOp(op=ast.Not(), operand=call_)
+                            return ast.fix_missing_locations(ast.copy_location(out_, n))
+                    return n
+            _Adj().visit(accept)
+            par = astx.Parents(fn.node)
             removes = [n for n in ast.walk(accept) if isinstance(n, ast.Call) and isinstance(n.func, ast.Attribute) and n.func.attr in ("remove_edges_from", "remove_edge")]
             tests = [n for n in ast.walk(accept) if isinstance(n, ast.Call) and isinstance(n.func, ast.Attribute) and n.func.attr == "has_edge"]
             if len(removes) != 1:
